@@ -33,10 +33,11 @@ const (
 	c12hpConnsRelayedAndDirect
 	c12hpConnsDirectOnly
 	c12hpConnsNone
+	c12hpConnsTwoRelayed
 	c12hpNConns
 )
 
-var c12hpConnsNames = []string{"relayed-inbound", "relayed-outbound", "relayed-inbound+direct-outbound", "direct-inbound", "none"}
+var c12hpConnsNames = []string{"relayed-inbound", "relayed-outbound", "relayed-inbound+direct-outbound", "direct-inbound", "none", "relayed-inbound+relayed-outbound"}
 
 type c12hpInitCase struct {
 	Space    string      `json:"space"`
@@ -72,12 +73,16 @@ func (c *c12hpInitCase) describe(w *c12hpWorld) string {
 		how, ps, c12hpConnsNames[c.Conns], c.DirectOK, sc, c12hpListenNames[c.Listen], c12hpFilterNames[c.Filter], c.LateAt, c.Startup)
 }
 
+func (c *c12hpInitCase) onlyRelayed() bool {
+	return c.Conns == c12hpConnsRelayedIn || c.Conns == c12hpConnsRelayedOut || c.Conns == c12hpConnsTwoRelayed
+}
+
 // honest: an honest, reachable-by-punching remote; every such case must end with DirectConnect == nil.
 func (c *c12hpInitCase) honest() bool {
 	if c.Notify != 0 || c.LateAt != 0 || len(c.Script) == 0 {
 		return false
 	}
-	if c.Conns != c12hpConnsRelayedIn && c.Conns != c12hpConnsRelayedOut {
+	if !c.onlyRelayed() {
 		return false
 	}
 	if c.Listen != c12hpListenPublic && c.Listen != c12hpListenMixed {
@@ -119,6 +124,9 @@ func c12hpApplyConns(h *c12hpHost, conns int) {
 		h.addConn(false, network.DirOutbound)
 	case c12hpConnsDirectOnly:
 		h.addConn(false, network.DirInbound)
+	case c12hpConnsTwoRelayed:
+		h.addConn(true, network.DirInbound)
+		h.addConn(true, network.DirOutbound)
 	}
 }
 
@@ -367,7 +375,7 @@ func c12hpCheckInit(w *c12hpWorld, c *c12hpInitCase, o *c12hpInitObs) (vs []c12h
 	if o.Returned && c.honest() && o.Err != "" {
 		vs = append(vs, c12hpViol{"baseline-honest-punch-failed", "honest remote over a relayed connection, hole punch scripted to succeed, but DirectConnect returned: " + o.Err})
 	}
-	if o.Returned && c.DirectOK && c.PsMask&3 != 0 && (c.Conns == c12hpConnsRelayedIn || c.Conns == c12hpConnsRelayedOut) && o.Err != "" {
+	if o.Returned && c.DirectOK && c.PsMask&3 != 0 && c.onlyRelayed() && o.Err != "" {
 		vs = append(vs, c12hpViol{"baseline-direct-dial-failed", "the peer has a public address and is directly reachable, but DirectConnect returned: " + o.Err})
 	}
 	return vs
